@@ -1,9 +1,11 @@
 package props
 
 import (
+	"strings"
 	"go/types"
 
 	"golibcheck/internal/core"
+	"golibcheck/internal/locks"
 )
 
 // C09 — linked hash maps/sets behave as bounded insertion-ordered dictionaries.
@@ -114,6 +116,7 @@ func runC09(p *core.Program, r *core.Report) {
 	r.Rule("C09.rehash", "rehash: 2n+1, threshold from new capacity, all old buckets re-bucketed with the lookup hash", 12)
 	r.Rule("C09.walks", "whole-table walks visit buckets 0..len-1 exactly", 12)
 	r.Rule("C09.enumer", "Keys/Values/Entries construct their enumerator with the matching discriminator", 30)
+	r.Rule("C09.own-entries", "the bucket table is filled only with entries of this instance: no bucket array or bucket of another instance of the type is copied or installed (shared chains are rewritten under the other's feet)", 8)
 	r.Rule("C09.elem-assert", "a type assertion on an element of the collection's own enumeration names a type the enumerator yields", 10)
 	r.Rule("C09.sort", "Sort: collect, sort.Sort, clear, re-insert all at the tail", 12)
 	r.Rule("C09.key-domain", "operations of one collection agree on which keys exist: no lookup/removal rejects a key the insertion path stores", 1)
@@ -139,6 +142,7 @@ func runC09(p *core.Program, r *core.Report) {
 		h.checkWalks()
 		h.checkEnumer()
 		h.checkElemAsserts()
+		h.checkForeign()
 		h.checkSort()
 		h.checkIndexSign()
 		h.checkKeyDomain()
@@ -160,6 +164,7 @@ func runC12(p *core.Program, r *core.Report) {
 	r.Rule("C12.rehash", "rehash: 2n+1, threshold from new capacity, all old buckets re-bucketed with the lookup hash", 3)
 	r.Rule("C12.walks", "whole-table walks visit buckets 0..len-1 exactly", 3)
 	r.Rule("C12.enumer", "enumerator constructors carry the matching discriminator and start index", 3)
+	r.Rule("C12.own-entries", "the bucket table is filled only with entries of this instance: no bucket array or bucket of another instance of the type is copied or installed", 2)
 	r.Rule("C12.elem-assert", "a type assertion on an element of the collection's own enumeration names a type the enumerator yields", 1)
 	r.Rule("C12.key-domain", "operations of one collection agree on which keys exist: no lookup/removal rejects a key the insertion path stores", 1)
 	r.Rule("C12.ctor", "every constructor leaves the collection with at least one bucket, whatever initial capacity it is given (lookups take the hash modulo the table length)", 4)
@@ -181,6 +186,7 @@ func runC12(p *core.Program, r *core.Report) {
 		h.checkWalks()
 		h.checkEnumer()
 		h.checkElemAsserts()
+		h.checkForeign()
 		h.checkIndexSign()
 		h.checkKeyDomain()
 		h.checkCtor()
@@ -189,4 +195,35 @@ func runC12(p *core.Program, r *core.Report) {
 	}
 	c12Serial(p, r)
 	c12EnumWalk(p, r)
+	// an operation that never returns answers nothing: no method of the plain collections calls, with
+	// its mutex held, a method of the same instance that takes it again (C10's re-entry rule on these
+	// four types; KeyArray/ToString/Sort go through the enumerator constructors)
+	r.Rule("C12.no-reentry", "no method of the plain maps and sets calls, with its mutex held, a same-receiver method that acquires it again: every operation returns", 4)
+	for _, n := range c12Types {
+		t := hmapNamed(p, n)
+		if t == nil {
+			continue
+		}
+		tl := locks.Analyze(p, t)
+		may := tl.MayLock()
+		bad := 0
+		for _, fl := range tl.Order {
+			for _, cs := range fl.Calls {
+				if cs.Held == locks.No {
+					continue
+				}
+				if path, ok := may[cs.Callee]; ok {
+					bad++
+					short := make([]string, len(path))
+					for i, sname := range path {
+						short[i] = locks.ShortName(sname)
+					}
+					r.Viol("C12.no-reentry", "util/hmap."+n+"."+fl.FI.Obj.Name()+" -> "+cs.Callee.Name(), p.Pos(cs.Pos), "called with the mutex held, and "+strings.Join(short, " -> ")+" locks the same non-reentrant mutex: the call never returns")
+				}
+			}
+		}
+		if bad == 0 {
+			r.OK("C12.no-reentry", "util/hmap."+n, "-", "no call made with the mutex held reaches Lock() of that mutex")
+		}
+	}
 }
